@@ -30,6 +30,8 @@ from typing import Any
 
 ROOT = Path(__file__).resolve().parents[2]
 KNOWN = ROOT / "known_findings.txt"
+# evidence/ and replays/ go to /verif unless a scratch run (a seeded change under test) asks for another place
+OUT_ROOT = Path(os.environ.get("VERIF_OUT") or ROOT)
 
 
 class Broken(RuntimeError):
@@ -283,7 +285,7 @@ def main(modname: str, argv: list[str] | None = None) -> int:
     sig_counts = merged.notes.get("sig_counts", {})
     unknown = 0
     printed_known = 0
-    rdir = ROOT / "replays" / pid
+    rdir = OUT_ROOT / "replays" / pid
     for sig in sorted(by_sig):
         v = by_sig[sig][0]
         if sig in known:
@@ -348,6 +350,6 @@ def write_evidence(
         "wall_s": round(wall, 2),
         "violations": unknown,
     }
-    out = ROOT / "evidence" / f"{mod.ID}.json"
-    out.parent.mkdir(exist_ok=True)
+    out = OUT_ROOT / "evidence" / f"{mod.ID}.json"
+    out.parent.mkdir(parents=True, exist_ok=True)
     out.write_text(json.dumps(doc, indent=1, sort_keys=False) + "\n")
